@@ -17,7 +17,7 @@ CFG_SOUND = "SPECIFICATION Spec\nINVARIANT Sound\n"
 CFG_COMPLETE = "SPECIFICATION Spec\nINVARIANT Complete\n"
 
 
-WEIGHT = {"dcrm": 3, "tcrm": 2}
+WEIGHT = {"dcrm": 3, "tcrm": 5}
 
 
 def corpus_for(ctx, cname, n):
